@@ -264,7 +264,7 @@ def replay_record(ctx, focus, doc):
     r = inp["record"]
     if "generator" in r:
         return None
-    rec = gen.Record(r["dt"], r["t0"], r["rain"], r["level"], set(r["removed"]), r["pre"], r["post"])
+    rec = gen.Record(r["dt"], r["t0"], r["rain"], r["level"], set(r["removed"]), r["pre"], r["post"], phase=r.get("phase", 0))
     res = C.run_case(ctx, rec, inp["s"], inp["j"], tz=inp.get("timezone", "UTC"))
     if res["load"][0] != "ok":
         print("load refused:", res["load"])
